@@ -60,9 +60,15 @@ func evalFunctionCall(vm *r.VM, expr *syntax.FuncCallExpr) (r.Element, error) {
 func execMethodFunction(vm *r.VM, root r.Element, funcName *r.IDName, params []r.Element) (r.Element, error) {
 	switch robj := root.(type) {
 	case *value.Object:
-		_, refModule, err := vm.FindElementWithModule(r.NewIDName(robj.GetObjectName()))
-		if err != nil {
-			return nil, err
+		// the methods of an object run in the module its type was defined in, whether or not
+		// the module that holds the object knows the type by name
+		refModule := robj.GetModel().GetModule()
+		if refModule == nil {
+			var err error
+			_, refModule, err = vm.FindElementWithModule(r.NewIDName(robj.GetObjectName()))
+			if err != nil {
+				return nil, err
+			}
 		}
 		fnCallFrame := r.NewFunctionCallFrame(refModule, root)
 		vm.PushCallFrame(fnCallFrame)
